@@ -70,6 +70,12 @@ def trees(tier):
     for k in (KEYS if not quick else KEYS[:6]):
         ts.append(("map", [(k, ("int", 1)), ("a", ("str", k))]))
     ts += [("map", []), ("seq", []), ("map", [("a", ("map", [])), ("b", ("seq", []))]), ("seq", [("seq", []), ("map", [])])]
+    # keys and strings around the 16/32/64-byte chunk sizes of the vectorised YAML scanners: a `key:` probe that works on
+    # 32-byte chunks sees the colon of a 31-character key in the last lane of a chunk and its space in the next one
+    for n in ((15, 16, 31, 32, 63, 64) if quick else (14, 15, 16, 17, 30, 31, 32, 33, 47, 62, 63, 64, 65, 95, 96, 127, 128)):
+        k = "k" * n
+        ts += [("map", [(k, ("int", 1)), ("z", ("int", 2))]), ("map", [("a", ("map", [(k, ("int", 1)), ("z", ("int", 2))]))]),
+               ("seq", [("map", [(k, ("str", "v")), ("z", ("int", 2))])]), ("map", [("a", ("str", "v" * n)), ("b", ("seq", [("str", "w" * n)]))])]
     return ts
 
 
